@@ -102,6 +102,7 @@ HARNESSES = {
     "u06_leb_signed_roundtrip": {"crate": "hexane", "file": "rust/hexane/src/codec.rs", "fn": "Leb128::encode_signed, read_signed, try_read_signed, signed_len, signed_size, lebsize", "mode": "complete", "bound": "all i64 (loops bounded by the 10-byte width)"},
     "u06_codec_reads_agree": {"crate": "hexane", "file": "rust/hexane/src/codec.rs", "fn": "Leb128::read_unsigned, Leb128::try_read_unsigned", "mode": "complete", "bound": "all inputs of <= 11 bytes (one more than the longest encoding)",
                               "backs": "the Codec trait contract assumed by the Verus unit u06v_hexane_str"},
+    "u06_signed_bytes_is_consumed": {"crate": "hexane", "file": "rust/hexane/src/codec.rs", "fn": "Codec::signed_bytes, Leb128::signed_len, Leb128::read_signed", "mode": "complete", "bound": "all inputs of <= 11 bytes (one more than the longest encoding)"},
     "u06_int_unpack_total": {"crate": "hexane", "file": "rust/hexane/src/lib.rs", "fn": "<u64 as RleValue>::try_unpack/value_len, <i64 as RleValue>::try_unpack/value_len", "mode": "complete", "bound": "all inputs of <= 11 bytes (one byte more than the longest encoding)"},
     "u06_narrow_unpack_total": {"crate": "hexane", "file": "rust/hexane/src/lib.rs", "fn": "<u32|usize|NonZeroU32 as RleValue>::try_unpack", "mode": "bounded", "bound": "all inputs of <= 6 bytes"},
     "u06_string_unpack_q": {"crate": "hexane", "file": "rust/hexane/src/lib.rs", "fn": "<String as RleValue>::try_unpack/unpack/value_len, <Vec<u8> as RleValue>::try_unpack/value_len", "mode": "bounded", "bound": "all inputs of <= 4 bytes", "timeout_s": 1200},
@@ -359,7 +360,7 @@ PROPERTIES.update({
     "C35": {
         "level": "proof",
         "verus": [("u06v_hexane_str", "*"), ("u29_hexane_prefix", "*"), ("u31_hexane_bool", "*"), ("u33_delta_nth", "*"), ("u34_delta_agg", "*"), ("u35_rle_track", "*"), ("u36_bool_load", "*")],
-        "kani": ["u06_codec_reads_agree", "u06_leb_unsigned_roundtrip", "u06_leb_signed_roundtrip", "u06_int_unpack_total", "u06_narrow_unpack_total", "u06_string_unpack_q", "u06_string_unpack_t",
+        "kani": ["u06_codec_reads_agree", "u06_signed_bytes_is_consumed", "u06_leb_unsigned_roundtrip", "u06_leb_signed_roundtrip", "u06_int_unpack_total", "u06_narrow_unpack_total", "u06_string_unpack_q", "u06_string_unpack_t",
                  "u06_string_unpack_huge_len", "u06_rle_segment_total_u64", "u06_rle_segment_total_i64", "u06_rle_segment_utf8"],
         "not_under_contract": ["Column::load / load_with / save / save_to (the generic ColumnLoadIter::finalize_with, Column::fill)", "slabs, B-tree index, splice, encoder.rs",
                                "RLE loader apart from its per-segment bookkeeping (Slab::copy_from, validate_after, rle_validate_encoding)", "bool encoding apart from BoolDecoder and BoolLoadIter::{new, cut_slab, try_next_run} (finalize, merge, splice, fill)",
@@ -373,7 +374,7 @@ PROPERTIES.update({
     "C39": {
         "level": "proof",
         "verus": [("u02_parse", ["utf_8", "take_n"]), ("u06v_hexane_str", "*")],
-        "kani": ["u06_codec_reads_agree", "u06_string_unpack_q", "u06_string_unpack_t", "u06_rle_segment_utf8", "u17_from_raw_string_valid", "u17_from_raw_string_valid_t"],
+        "kani": ["u06_codec_reads_agree", "u06_signed_bytes_is_consumed", "u06_string_unpack_q", "u06_string_unpack_t", "u06_rle_segment_utf8", "u17_from_raw_string_valid", "u17_from_raw_string_valid_t"],
         "not_under_contract": ["the global invariant 'every unchecked unpack is dominated by a checked pass over the same bytes' (hexane columns, bundles)", "BundleStorage::verify", "Column::load validation walk", "change_graph / columns.rs string reads"],
         "trusted": ["std::str::from_utf8 / String::from_utf8 validators (uninterpreted `valid_utf8` in the Verus unit)"],
         "explanation": "Verus proves parse::utf_8 only ever builds a String from bytes the std validator accepted (any length); on the real hexane <String as RleValue>::{try_unpack, unpack, value_len} Verus proves, for buffers of ANY length "
